@@ -38,6 +38,9 @@ CHECKS = {
              text="For every enumerated expression, every automaton state, following sequence (<= 2), start index and to_end, a returned filler is generatable and really completes the match (z3 membership), and a None answer is confirmed by an unsat existence query; for 3-type nested schemas and the catalogue schemas every returned wrapper chain satisfies the five clauses and z3 shows no shorter chain (or no chain at all when None is returned).",
              ref="4/C15",
              note="Bounded: expressions/schemas enumerated as listed in evidence bounds; fillers up to n_states+1. Trusted: z3 5.1, reference parser, automaton extraction. Witnesses replayed on plain CPython with Python's re and brute force."),
+ "C01": dict(technique="CrossHair symbolic execution of the eight step classes' apply() with all integer fields symbolic and payloads a symbolic catalogue index; outcome judged by a validator derived from the spec dictionaries",
+             text="On every catalogue document, for ReplaceStep, ReplaceAroundStep (gap or outer positions symbolic), Add/RemoveMarkStep, Add/RemoveNodeMarkStep, AttrStep and DocAttrStep with every in-range ordered combination of positions and every catalogue payload, each path ends in a failed result, a ValueError-family exception or a document the independent validator accepts (content expressions, allowed marks, canonical mark sets, attrs); thorough also decodes each step from its JSON first.",
+             ref="4/C01"),
 }
 CHECKS_END = None
 
